@@ -71,7 +71,17 @@ class C12(ParserSessionProp):
     # ------------------------------------------------------------ reader half
     def execute(self, spec, executor_mode=None):
         result = super().execute(spec, executor_mode)
-        if result['violations'] or spec['world']['grammar']['kind'] != 'real':
+        if result['violations']:
+            return result
+        if spec['world']['grammar']['kind'] != 'real' or not getattr(self._last_world, 'parsed', []):
+            if spec.get('many_parents', {}).get('big'):
+                # the large same-children file does not depend on what this run parsed
+                vs, log3 = self.many_parents_stage(spec['world']['grammar'].get('lang', 'en'), spec['many_parents'], result['stats'])
+                for v in vs:
+                    v['property'] = self.id
+                    v['op_index'] = len(spec['ops'])
+                result['violations'].extend(vs)
+                result['log_digest'] = digest((result['log_digest'], log3))
             return result
         # re-run the calls to collect the responses (cheap: worlds are small) -- done inside super via world.parsed
         world = self._last_world
@@ -113,10 +123,23 @@ class C12(ParserSessionProp):
         pairs, _, _ = gen.seen_index(variant)
         rng = _random.Random(mp['seed'])
         x, y = rng.choice(pairs)
+        if mp.get('big'):
+            best = 0
+            for a, b in rng.sample(pairs, 400):
+                try:
+                    k = len({str(r.cat) for r in binary(Category.parse(a), Category.parse(b))})
+                except Exception:
+                    continue
+                if k > best:
+                    best, x, y = k, a, b
         cx, cy = Category.parse(x), Category.parse(y)
         names = sorted({c for p in pairs for c in p})
         rng.shuffle(names)
         parents = [r.cat for r in binary(cx, cy)] + [Category.parse(c) for c in names[:mp['n']]]
+        if mp['n'] > len(names):
+            # more parents than the shipped rules have categories: numbered features on an atom (never derivable)
+            atom = 'S' if lang == 'en' else 'NP'
+            parents += [Category.parse(f'{atom}[q{i}]') for i in range(mp['n'] - len(names))]
         rng.shuffle(parents)
         doc = [[ScoredTree(Tree.make_binary(p, Tree.make_terminal(Token.of_word('l'), cx),
                                             Tree.make_terminal(Token.of_word('r'), cy), 'x', '<x>', True), -1.0)]
@@ -192,6 +215,11 @@ class C12(ParserSessionProp):
         if mrng.random() < 0.02:
             spec['many_parents'] = {'variant': mrng.choice(['en', 'en_rebank']), 'seed': mrng.getrandbits(30),
                                     'n': 3000, 'format': mrng.choice(['auto', 'ptb', 'xml'])}
+        if tier == 'thorough' and index % 3000 == 1500:
+            # thorough tier only (two to three minutes per file): 150,000 trees over the pair of children that has the
+            # most derivable parents, so that a table of 2^18 remembered lookups is more than half full of them
+            spec['many_parents'] = {'variant': mrng.choice(['en', 'en_rebank']), 'seed': mrng.getrandbits(30),
+                                    'n': 150000, 'format': 'auto', 'big': True}
         # F11: for one file of every third run the reading is repeated under every stack budget between "fails at
         # once" and "succeeds", i.e. the interpreter's recursion limit is hit at every possible point of the reader
         srng = gen.stream(seed, self.id + ':stack', index)
